@@ -5,35 +5,40 @@ CONSTANTS
   o1 = o1
   o2 = o2
   None = None
-  Starts = {s1}
+  Starts = {s1, s2}
   IdOf <- IdOfDef
-  Objs = {o1}
-  MaxAttempts = 7
-  MaxClock = 3
-  FailBudget = 1
-  RespBudget = 1
-  JunkBudget = 0
+  Objs = {o1, o2}
+  MaxAttempts = 2
+  MaxClock = 4
+  FailBudget = 2
+  RespBudget = 2
+  JunkBudget = 1
   CloseConn = TRUE
   HasFallback = TRUE
   AllowClose = TRUE
   AllowDo = TRUE
   AllowIndicate = TRUE
-  IdleCollects = 1
-  RtoChanges = 2
+  IdleCollects = 0
+  RtoChanges = 0
   DeadlineTicks = FALSE
   OneAtATime = FALSE
-  SafePool = FALSE
-  Strict = FALSE
+  SafePool = TRUE
+  Strict = TRUE
 VIEW View
 INVARIANT TypeOK
 INVARIANT AtMostOnce
 INVARIANT WritesBounded
+INVARIANT ExactlyOnceAfterClose
 INVARIANT RoutedByID
 INVARIANT ConnOwnership
 INVARIANT GoroutinesGone
+INVARIANT OnSchedule
+INVARIANT StartErrNoCall
 INVARIANT DoNotStuck
 INVARIANT IndicationsAreNotTransactions
+PROPERTY DoWaits
+PROPERTY QuietAfterEnd
+PROPERTY SilentAfterClose
 PROPERTY ClosedStartsRefused
 PROPERTY RtoSnapshot
-ACTION_CONSTRAINT PrintEdge
 CHECK_DEADLOCK FALSE
